@@ -51,7 +51,7 @@ func init() {
 		pkgPath:   "github.com/yandex/pandora/components/providers/http/provider",
 		module:    "ProvLoops",
 		namespace: "Pandora.Gen.ProvLoops",
-		imports:   []string{"Pandora.Model.C08Mach", "Pandora.Model.C08Scan", "Pandora.Model.C08Fault"},
+		imports:   []string{"Pandora.Model.C08Mach", "Pandora.Model.C08Scan", "Pandora.Model.C08Fault", "Pandora.Model.C08Pick"},
 		extra:     provloopsExtra,
 	}
 }
@@ -541,6 +541,8 @@ func provloopsExtra(t *tr) string {
 		"github.com/yandex/pandora/lib/ioutil2",
 		"github.com/yandex/pandora/core/engine",
 		"github.com/yandex/pandora/lib/errutil",
+		"github.com/yandex/pandora/core/datasource",
+		"github.com/yandex/pandora/components/providers/http/config",
 	)
 
 	// ------------------------------------------------------------ components/providers/http/provider
@@ -759,6 +761,8 @@ func provloopsExtra(t *tr) string {
 	}
 	// ------------------------------------------------------------ how Run ends: the deferred cleanups, path by path (round 3)
 	b.WriteString(provloopsFinish(t, load))
+	// ------------------------------------------------------------ the data sources of the generic JSON provider (round 4)
+	b.WriteString(provloopsSources(t, load))
 	return b.String()
 }
 
